@@ -338,7 +338,10 @@ class VProc:
         self.mod = mod
         if type(mod._tty_lock) is REAL_RLOCK_TYPE:
             mod._tty_lock = CtlT(f"T{pid}")
-        mod._rlock_type = CtlT
+        # `_rlock_type` is whatever the module evaluated `type(_tty_lock)` to: the thread-lock type maps
+        # to the thread-lock stand-in; anything else (e.g. the type of an adopted lock) is left as it is
+        if getattr(mod, "_rlock_type", None) is REAL_RLOCK_TYPE:
+            mod._rlock_type = CtlT
         if type(mod._cell_size_lock) is REAL_RLOCK_TYPE:
             mod._cell_size_lock = PassiveT("cell")
         if hasattr(mod, "Array"):
@@ -358,6 +361,9 @@ class VProc:
         self.probe = mod.lock_tty(probe_body)
         TRACED[self.probe.__code__] = ("sync", load_offsets(self.probe.__code__))
         self.real_fns = {}
+        self.fns = {"p": self.probe}
+        if sch.use_screen:
+            self.build_screen()
         if fake_tty:
             mod.os = FakeOS(sch, mod._tty_fd)
             mod.termios = FakeTermios(sch)
@@ -379,6 +385,72 @@ class VProc:
 
 def probe_body():
     return tl.th.body()
+
+
+class ScreenFile:
+    """terminal file of the urwid screen: writing / flushing is the body of the synchronized method"""
+
+    def __init__(self, fd):
+        self._fd = fd
+
+    def fileno(self):
+        return self._fd
+
+    def isatty(self):
+        return True
+
+    def write(self, data):
+        tl.th.body()
+        return len(data)
+
+    def flush(self):
+        tl.th.body()
+
+
+def _input_codes():
+    tl.th.body()
+    return []
+
+
+def build_screen(self):
+    """a REAL `UrwidImageScreen` of a fresh execution of widget/_urwid.py bound to this process's
+    utils module (executed now, i.e. before any Process.start() of this process — as a program that
+    imports the widget at start-up); its terminal files are stand-ins whose operations are the bodies"""
+    saved = sys.modules.get("term_image.utils")
+    sys.modules["term_image.utils"] = self.mod
+    try:
+        m = types.ModuleType("term_image.widget._urwid")
+        m.__package__ = "term_image.widget"
+        m.__file__ = URWID_FILE
+        exec(URWID_CODE, m.__dict__)
+    finally:
+        if saved is not None:
+            sys.modules["term_image.utils"] = saved
+    scr = m.UrwidImageScreen(input=ScreenFile(0), output=ScreenFile(1))
+    scr._get_input_codes = _input_codes
+    self.screen = scr
+    self.fns.update({"i": scr.get_available_raw_input, "w": lambda: scr.write("x"), "f": scr.flush})
+    for v in vars(m.UrwidImageScreen).values():
+        f = v
+        for _ in range(6):
+            if not callable(f) or not hasattr(f, "__code__"):
+                break
+            if "_tty_lock" in f.__code__.co_names and f.__code__ not in TRACED:
+                TRACED[f.__code__] = ("sync", load_offsets(f.__code__))
+            f = getattr(f, "__wrapped__", None)
+
+
+VProc.build_screen = build_screen
+URWID_FILE = None
+URWID_CODE = None
+
+
+def load_urwid_source():
+    global URWID_FILE, URWID_CODE
+    if URWID_CODE is None:
+        import term_image.widget._urwid as W0
+        URWID_FILE = W0.__file__
+        URWID_CODE = compile(open(URWID_FILE).read(), URWID_FILE, "exec")
 
 
 def fake_start(procobj, *a, **k):
@@ -592,8 +664,10 @@ class Th(threading.Thread):
                                 f"result: thread {self.tid} called {FN_NAMES[name]}() and got {res!r}; with the "
                                 f"terminal's replies delivered to their own callers it returns {exp}")
                     else:
+                        kinds = self.sch.fn_kinds
+                        kind = kinds[self.tid] if self.tid < len(kinds) else "p"
                         try:
-                            vp.probe()
+                            vp.fns.get(kind, vp.probe)()
                         except ProbeError:
                             pass
                         self.call_consumed = False
@@ -640,10 +714,14 @@ def classify(data: bytes):
 
 
 class Sched:
-    def __init__(self, procs, flav, real=False, progs=None):
+    def __init__(self, procs, flav, real=False, progs=None, fns=None):
         self.done = Signal()
         self.flav = flav
         self.real = real
+        self.fn_kinds = list(fns or [])
+        self.use_screen = any(k != "p" for k in self.fn_kinds)
+        if self.use_screen:
+            load_urwid_source()
         self.vprocs = {}
         self.depth = {}
         self.viol = []
@@ -1016,6 +1094,67 @@ def tty_lock_sites():
     return sorted(sites)
 
 
+def module_init_order():
+    """source order of: the binding of `_tty_lock`, the evaluation of `_rlock_type`, the import-time
+    adoption call — read from the AST of utils.py"""
+    import ast
+    tree = ast.parse(open(UTILS_FILE).read())
+    out = []
+
+    def visit(stmts):
+        for st in stmts:
+            if isinstance(st, ast.Assign):
+                names = [t.id for t in st.targets if isinstance(t, ast.Name)]
+                if "_tty_lock" in names:
+                    out.append("_tty_lock = " + ast.unparse(st.value))
+                if "_rlock_type" in names:
+                    out.append("_rlock_type = " + ast.unparse(st.value))
+            elif isinstance(st, ast.Expr) and isinstance(st.value, ast.Call) \
+                    and getattr(st.value.func, "id", None) == "_adopt_process_locks":
+                out.append("adopt " + ast.unparse(st.value.args[0]) if st.value.args else "adopt")
+            elif isinstance(st, (ast.If, ast.For, ast.While, ast.With, ast.Try)):
+                for field in ("body", "orelse", "finalbody"):
+                    visit(getattr(st, field, []) or [])
+                for h in getattr(st, "handlers", []) or []:
+                    visit(h.body)
+
+    visit(tree.body)
+    return out
+
+
+def lock_aliases():
+    """every place of the package (other than utils.py itself) that binds the lock OBJECT by name:
+    `from ..utils import _tty_lock` (any scope), or a module attribute that is the lock object"""
+    import pkgutil
+    import term_image
+    found = set()
+    for info in pkgutil.walk_packages(term_image.__path__, "term_image."):
+        spec = info.module_finder.find_spec(info.name)
+        path = getattr(spec, "origin", None)
+        if not path or not path.endswith(".py") or path == UTILS_FILE:
+            continue
+        try:
+            code = compile(open(path).read(), path, "exec")
+        except Exception:  # noqa: BLE001
+            continue
+
+        def walk(c):
+            for ins in dis.get_instructions(c):
+                if ins.opname == "IMPORT_FROM" and ins.argval in ("_tty_lock", "_cell_size_lock"):
+                    found.add(f"{info.name}:{c.co_name}: from-import {ins.argval}")
+            for k in c.co_consts:
+                if isinstance(k, types.CodeType):
+                    walk(k)
+
+        walk(code)
+    for name, m in list(sys.modules.items()):
+        if name.startswith("term_image") and m is not None and m is not U0:
+            for k, v in list(vars(m).items()):
+                if v is U0._tty_lock:
+                    found.add(f"{name}.{k}: is the lock object")
+    return sorted(found)
+
+
 def facts():
     probe = U0.lock_tty(lambda: None)
     sync_ops = wrapper_ops(probe.__code__)
@@ -1071,7 +1210,8 @@ def facts():
                         users.append(f"{mname}.{obj.__name__}.{k}")
     return {"tty_fd": U0._tty_fd, "syncOps": sync_ops, "startOps": start_ops, "wrappedClass": wrapped,
             "childAdoption": adoption, "lockTtyUsers": sorted(users),
-            "ttyLockSites": [f"{n}: {o}" for n, o in tty_lock_sites()]}
+            "ttyLockSites": [f"{n}: {o}" for n, o in tty_lock_sites()],
+            "moduleInitOrder": module_init_order(), "lockAliases": lock_aliases()}
 
 
 def _keeper():
@@ -1095,7 +1235,7 @@ def main():
             if req["op"] == "facts":
                 resp = facts()
             elif req["op"] == "sched":
-                sch = Sched(req["procs"], req.get("flav", {}))
+                sch = Sched(req["procs"], req.get("flav", {}), fns=req.get("fns"))
                 res, viol, errs = sch.run(req["steps"])
                 resp = {"res": res, "viol": viol, "errs": errs}
             elif req["op"] == "fsched":
@@ -1113,7 +1253,7 @@ def main():
                 resp = {"steps": toks, "res": res, "viol": viol, "errs": errs, "expected": EXPECTED}
             elif req["op"] == "sgen":
                 import random as _r
-                sch = Sched(req["procs"], req.get("flav", {}))
+                sch = Sched(req["procs"], req.get("flav", {}), fns=req.get("fns"))
                 toks, res, viol, errs = sch.generate(_r.Random(req["seed"]), req.get("maxsteps", 120), req.get("cfg", {}))
                 resp = {"steps": toks, "res": res, "viol": viol, "errs": errs}
             elif req["op"] == "deco":
